@@ -1,6 +1,28 @@
+"""usage: bin/agent_prompt.py c07 > prompt.txt - the text a seeding sub-agent gets: the property (from properties.jsonl)
+and the path of ITS OWN scratch worktree /tmp/wt_<id>; nothing of /verif is mentioned or readable from it."""
+import json
+import os
 import sys
-pid=sys.argv[1]
-prop=open('/tmp/prop_%s.txt'%pid).read()
+
+pid = sys.argv[1]
+P = None
+for line in open(os.path.join(os.path.dirname(os.path.dirname(os.path.abspath(__file__))), "properties.jsonl")):
+    q = json.loads(line)
+    if q["id"].lower() == pid.lower():
+        P = q
+a = P["anchors"]
+prop = "\n".join(
+    [
+        "ID: " + P["id"],
+        "TITLE: " + P["title"],
+        "STATEMENT: " + P["statement"],
+        "QUANTIFIER: " + P["quantifier"]["text"],
+        "WHY TESTS CANNOT SETTLE IT: " + P["why_tests_cant"],
+        "ANCHOR FILES: " + ", ".join(a["files"]),
+        "MECHANISMS: " + "; ".join("%s (%s)" % (m["name"], m["where"]) for m in a["mechanism"]),
+        "OBSERVE AT: " + "; ".join(a["observe_at"]),
+    ]
+) + "\n"
 print(f"""You are helping evaluate a verification framework for the open-source project microsoft/lsprotocol (a code generator that turns the LSP JSON metamodel into Python/Rust/.NET type packages, plus the generated Python `lsprotocol` package with cattrs converters).
 
 Your scratch copy of the repository is the git worktree at /tmp/wt_{pid} (work ONLY there; never touch /repo or /verif, and do not read anything under /verif). Python for the project is /venv/bin/python; the test suite is run with:
